@@ -107,6 +107,9 @@ func (e *Engine) execInstr(f *frame, ins ssa.Instruction) {
 		if p.Cell == nil {
 			e.nilCheck(p, x.Pos(), "store")
 			e.frameCheck(p, pointee(p.T), x.Pos())
+			if _, isArr := pointee(p.T).Underlying().(*types.Array); !isArr {
+				e.preferVisible(f.st, p, v)
+			}
 		} else if p.Cell.Glob != nil && e.specDepth == 0 {
 			e.failNow("frame", "store to package-level variable "+p.Cell.Name, x.Pos())
 		}
@@ -597,8 +600,35 @@ func (e *Engine) stringEq(a, b Val) *smt.Term {
 			return X.BoolConst(sa == sb)
 		}
 	}
-	bail("comparison of non-constant strings")
-	return nil
+	// general case: equal lengths and equal bytes (strings are immutable byte objects)
+	return e.bytesEq(a.C[0], a.C[1], a.C[2], b.C[0], b.C[1], b.C[2])
+}
+
+// bytesEq: two byte ranges (ref, off, len) have the same length and contents.
+func (e *Engine) bytesEq(ra, oa, la, rb, ob, lb *smt.Term) *smt.Term {
+	X := e.X
+	st := e.curState
+	if st == nil {
+		bail("comparison of non-constant strings outside a function body")
+	}
+	h := e.heap(st, "arr:uint8/", smt.BV(8))
+	A, B := X.Select(h, ra), X.Select(h, rb)
+	n := -1
+	if la.IsConst() && la.V <= 256 {
+		n = int(la.V)
+	} else if lb.IsConst() && lb.V <= 256 {
+		n = int(lb.V)
+	}
+	if n >= 0 {
+		cs := []*smt.Term{X.Eq(la, lb)}
+		for k := 0; k < n; k++ {
+			kk := X.Const(uint64(k), 64)
+			cs = append(cs, X.Eq(X.Select(A, X.BVAdd(oa, kk)), X.Select(B, X.BVAdd(ob, kk))))
+		}
+		return X.And(cs...)
+	}
+	j := X.BVar("sj", IntSort)
+	return X.And(X.Eq(la, lb), X.Forall([]*smt.Term{j}, X.Implies(X.Ult(j, la), X.Eq(X.Select(A, X.BVAdd(oa, j)), X.Select(B, X.BVAdd(ob, j))))))
 }
 
 func (e *Engine) unop(f *frame, x *ssa.UnOp) Val {
